@@ -530,8 +530,15 @@ _u16char_const = "u" + _char_const
 _u32char_const = "U" + _char_const
 _multicharacter_constant = "'" + _cconst_char + "{2,4}'"
 _unmatched_quote = "('" + _cconst_char + "*\\n)|('" + _cconst_char + "*$)"
+_bad_char_tail = r"""([^'\\\n]|\\[^\n])"""  # an escaped quote does not end the constant
 _bad_char_const = (
-    r"""('""" + _cconst_char + """[^'\n]+')|('')|('""" + _bad_escape + r"""[^'\n]*')"""
+    r"""('"""
+    + _cconst_char
+    + _bad_char_tail
+    + r"""+')|('')|('"""
+    + _bad_escape
+    + _bad_char_tail
+    + r"""*')"""
 )
 
 # string literals (K&R2: A.2.6)
